@@ -78,9 +78,8 @@ Lemma pk_tail_cmp_valid : forall x r, pk_comp_ok x = true ->
 Proof.
   intros x r Hx. unfold pk_comp_ok, pk_key_cmp, pk_key, pk_pad, lexprod in *. cbn [pk_tail_cmp].
   destruct (big_of_string x) eqn:E; cbn [fst snd thenc optz_low_cmp].
-  - rewrite Hx, Nat.compare_refl. split; [reflexivity | discriminate].
-  - assert (atoi_ok x = false) as -> by (unfold atoi_ok; rewrite E; reflexivity).
-    apply negb_true_iff, Nat.eqb_neq in Hx.
+  - rewrite Nat.compare_refl. split; [reflexivity | discriminate].
+  - apply negb_true_iff, Nat.eqb_neq in Hx.
     destruct (Nat.compare (pk_weight x) hash_weight) eqn:C.
     + apply Nat.compare_eq in C. congruence.
     + split; [reflexivity | discriminate].
